@@ -177,6 +177,9 @@ func (t Table) addRoute(d *RouteDef) error {
 	switch {
 	// add new host
 	case t[host] == nil:
+		if _, err := glob.Compile(host); err != nil {
+			return fmt.Errorf("route: invalid host %q. %s", host, err)
+		}
 		g, err := glob.Compile(path)
 		if err != nil {
 			return err
@@ -335,8 +338,10 @@ func (t Table) matchingHosts(req *http.Request, globCache *GlobCache) (hosts []s
 		//Get Compiled Glob from LRU cache
 		g, err := globCache.Get(normpat)
 		if err != nil {
-			log.Print("[Error] Compiling glob - ", err)
-			g = glob.MustCompile(normpat)
+			// host patterns are validated when the route is added.
+			// Never panic on the request path.
+			log.Print("[ERROR] Compiling glob - ", err)
+			continue
 		}
 
 		if g.Match(host) {
